@@ -83,7 +83,7 @@ def run(ctx):
     quick = ctx.tier == "quick"
     inv = ["DisjointThm", "NoBlankThm", "MaximalThm", "SeededThm", "CoverThm", "MonotoneThm", "FilterThm"]
     domains = [(3, 3, {1, 3, 5}), (2, 3, {0, 1, 2, 3, 4, 5})] if quick else \
-              [(3, 3, {1, 3, 4, 5}), (2, 4, {0, 1, 2, 3, 4, 5}), (1, 6, {0, 1, 2, 3, 4, 5}), (3, 4, {1, 3, 5})]
+              [(3, 3, {1, 3, 4, 5}), (2, 3, {0, 1, 2, 3, 4, 5}), (1, 6, {0, 1, 2, 3, 4, 5}), (2, 4, {1, 3, 5}), (3, 4, {1, 5})]
     for (H, W, cl) in domains:
         res = ctx.tlc("MC_Islands", common.cfg(spec="Spec", constants={"H": H, "W": W, "Classes": cl},
                                                 invariants=inv, deadlock=False),
